@@ -82,6 +82,39 @@ func hashTypeSiblings(c *an.Check) map[int64]bool {
 		})
 		ex := n1 + n2 + n3 + n4
 		con := "hash.HashType value " + name
+		// digest length agreement: GetHashLen(v) is the length of what Sum(v) returns and of what BuildHasher(v) produces
+		var lenConst, sumLen, hasherLen int64 = -1, -1, -1
+		enumVerdict(c, fns["GetHashLen"], v, func(s *an.State, ret *ssa.Return) bool {
+			if k, ok := s.RetVal(ret, 0).(*ssa.Const); ok && k.Value != nil && k.Value.Kind() == constant.Int {
+				lenConst = k.Int64()
+			}
+			return true
+		})
+		enumVerdict(c, fns["Sum"], v, func(s *an.State, ret *ssa.Return) bool {
+			if n, ok := s.FixedLen(s.RetVal(ret, 0)); ok {
+				sumLen = n
+			}
+			return true
+		})
+		enumVerdict(c, fns["BuildHasher"], v, func(s *an.State, ret *ssa.Return) bool {
+			rv := s.RetVal(ret, 0)
+			if mi, ok := rv.(*ssa.MakeInterface); ok {
+				rv = mi.X
+			}
+			if call, ok := rv.(*ssa.Call); ok {
+				if f := call.Call.StaticCallee(); f != nil && f.Pkg != nil {
+					switch f.Pkg.Pkg.Path() + "." + f.Name() {
+					case "crypto/sha256.New", "github.com/zeebo/blake3.New":
+						hasherLen = 32
+					case "crypto/sha1.New":
+						hasherLen = 20
+					case "crypto/sha512.New":
+						hasherLen = 64
+					}
+				}
+			}
+			return true
+		})
 		// Validate must decide the value one way or the other
 		if !(va == "ok" || vr == "ok") {
 			c.Fail("SIBLING", con+": Validate decides", fns["Validate"], "", ex, fmt.Sprintf("Validate neither always accepts nor always rejects (accept=%s reject=%s)", va, vr), nil)
@@ -91,6 +124,8 @@ func hashTypeSiblings(c *an.Check) map[int64]bool {
 			accepted[v] = true
 			c.Require(sa == "ok" && ba == "ok" && la == "ok", "SIBLING", con+": accepted by Validate implies Sum/BuildHasher/GetHashLen support it", fns["Validate"], "", ex,
 				"Validate accepts; Sum ok, BuildHasher ok, GetHashLen>0", fmt.Sprintf("Validate accepts the value but Sum=%s BuildHasher=%s GetHashLen>0=%s", sa, ba, la))
+			c.Require(lenConst > 0 && lenConst == sumLen && lenConst == hasherLen, "SIBLING", con+": GetHashLen equals the digest length of Sum and of the BuildHasher algorithm", fns["GetHashLen"], "", 3,
+				fmt.Sprintf("all three are %d", lenConst), fmt.Sprintf("GetHashLen says %d, Sum returns %d bytes, the hasher built is a %d-byte algorithm (-1 = not resolved): Hash.Validate accepts non-digests and rejects genuine ones", lenConst, sumLen, hasherLen))
 		} else {
 			c.Require(sr == "ok", "SIBLING", con+": rejected by Validate implies Sum rejects it", fns["Sum"], "", ex,
 				"Validate rejects and Sum returns an error", fmt.Sprintf("Validate rejects the value but Sum error-verdict is %s", sr))
@@ -237,6 +272,28 @@ func c15(c *an.Check) {
 			an.ResultCallTo(um[0].Call.Args[1], an.X("github.com/mr-tron/base58/base58", "", "Decode")) != nil && an.IsParam(um[0].Call.Args[0], 0) && an.IsParam(dec[0].Call.Args[0], 1)
 	}
 	c.Require(okm, "MIRROR", "hash.Hash MarshalString/ParseFromB58 are inverse constructions", ms, "", 3, "b58.Encode(MarshalVT(h)) vs h.UnmarshalVT(b58.Decode(ref))", "string encoding and parsing are not mirror images (base58 over the protobuf encoding of the receiver)")
+	// lossless: the only hashes that encode to the empty string are the nil hash and one whose protobuf encoding fails —
+	// any other early "" makes distinct hashes indistinguishable (and unparseable)
+	if ms != nil {
+		c.EachReturn("PROVENANCE", "hash.Hash.MarshalString returns \"\" only for a nil hash or a marshalling error", ms, "every other return is b58.Encode(MarshalVT(h))", func(s *an.State, ret *ssa.Return) string {
+			rv := s.RetVal(ret, 0)
+			if v, ok := an.StrConstOf(rv); ok && v == "" {
+				if s.IsNil(ms.Params[0]) {
+					return ""
+				}
+				for _, mc := range an.Calls(ms, an.R("hash", "Hash", "MarshalVT")) {
+					if e := an.ErrResult(mc, -1); e != nil && s.KnownNonNilErr(e) {
+						return ""
+					}
+				}
+				return "the empty string is returned for a non-nil hash that marshals fine: hashes with a zero type or an empty digest collapse to the zero hash's encoding and cannot be parsed back"
+			}
+			if an.ResultCallTo(rv, an.X("github.com/mr-tron/base58/base58", "", "Encode")) == nil {
+				return "a return yields something other than the base58 of the protobuf encoding"
+			}
+			return ""
+		})
+	}
 	c.Trust("github.com/mr-tron/base58 Encode/Decode are inverse", "protobuf-go-lite MarshalVT/UnmarshalVT round-trip", "bytes.Equal", "crypto/sha256, crypto/sha1, zeebo/blake3 digests")
 }
 
